@@ -548,6 +548,8 @@ def _a64_mem_formatter(tok, trailing):
         if rest:
             if len(rest) == 2 and rest[0] in A64_SHIFT_OPS and _INT.match(rest[1]):
                 mem.ext = (rest[0], parse_int(rest[1]))
+            elif len(rest) == 1 and rest[0] in A64_SHIFT_OPS:
+                mem.ext = (rest[0], 0)             # extend without amount: [x2, w3 sxtw]
             else:
                 raise ParseError("shift / extend field '%s'" % p)
     return mem
